@@ -478,6 +478,11 @@ type SocketOpts struct {
 	// Binary: the front is the real helios binary started with this configuration (l2_binary.go)
 	// instead of the in-process replica of cmd/helios's composition. LB and Server are nil then.
 	Binary bool
+	// BeforeStart (optional; nil = nothing happens) is called with the listening raw backends after the
+	// configuration is final and before the balancer exists: whatever the balancer does on its own at
+	// start-up (the start-up round of active health probes) already meets backends scripted by it
+	// (Fallback, Refuse).
+	BeforeStart func(backends []*RawBackend)
 }
 
 func secs(v, def int) time.Duration {
@@ -511,6 +516,9 @@ func NewSocketLab(strategy string, o SocketOpts) (*SocketLab, error) {
 		o.Mutate(cfg)
 	}
 	l.Cfg = cfg
+	if o.BeforeStart != nil {
+		o.BeforeStart(l.Backends)
+	}
 	if o.Binary {
 		if err := l.startBinaryFront(); err != nil {
 			l.Close()
